@@ -54,6 +54,10 @@ def strategy(tier):
     off = G.weighted((3, st.lists(st.sampled_from(KINDS), min_size=1, max_size=1)),
                      (3, st.lists(st.sampled_from(KINDS), min_size=1, max_size=4, unique=True)),
                      (1, st.just(list(KINDS))),
+                     (2, st.sampled_from([["cpp_member", "cpp_constructor", "cpp_attr"], ["function", "macro"],
+                                          ["ct_add_test", "ct_add_section", "add_test"],
+                                          [k for k in KINDS if k != "cpp_class"], [k for k in KINDS if k != "function"],
+                                          ["cpp_member", "cpp_constructor", "cpp_attr", "function", "macro"]])),
                      (1, st.lists(st.sampled_from(KINDS), min_size=5, max_size=10, unique=True)))
     return st.fixed_dictionaries({"module": G.module(p), "layout": G.layout_choices(16),
                                   "off": st.lists(off, min_size=1, max_size=3 if tier == "quick" else 6)})
